@@ -347,6 +347,40 @@ def r_stats_at(rep, prog):
         c = T.canon(t)
         if c[0] == "agg" and len(c[2]) == 3 and c[2][0] == ENTRY:
             huge_ok = c[2][1] == ("bin", "Div", ENTRY, ("c", HF)) and c[2][2] == ("c", 0)
+    # which order selects which arm, and the fields an arm does not compute are 0
+    HO = prog.crate("llfree").const("llfree::HUGE_ORDER")
+    TO = prog.crate("llfree").const("llfree::TREE_ORDER")
+    sw = None
+    for s_ in range(b.nblocks()):
+        tt = b.term(s_)
+        if tt["k"] == "switch" and T.canon(tm.operand(tt["discr"])) == ("p", "order"):
+            sw = s_
+            break
+    arm_ok = False
+    adetail = "no `match order`"
+    if sw is not None and iz:
+        targets = dict(b.term(sw)["targets"])
+        izb = iz[0][0]
+        from cfg import reachable_from as _rf
+        base_arm = [v for v, tg in targets.items() if izb in _rf(b, tg, stop={x for vv, x in targets.items() if vv != v} | {b.term(sw)["otherwise"]})]
+        arm_ok = base_arm == [0] and HO in targets and TO in targets
+        adetail = "arms for orders %s, bit test under order %s" % (sorted(targets), base_arm)
+    rep.check(arm_ok, rule, "stats_at|arms", "order 0 -> bit query, HUGE_ORDER -> entry, TREE_ORDER -> table sum",
+              "the queries are not selected by order 0 / HUGE_ORDER / TREE_ORDER (%s): a per-frame query falls through to the "
+              "default (nothing free)" % adetail, b.span)
+    zero_ok = True
+    for bi, si, st in b.stmts():
+        if st["k"] != "assign" or st["rv"]["k"] != "aggregate" or "Stats" not in str(st["rv"]["kind"].get("adt", "")):
+            continue
+        c = T.canon(tm.rvalue(st["rv"]))
+        if c[0] == "agg" and len(c[2]) == 3:
+            f0 = T.strip_casts(tm.rvalue(st["rv"])[2][0])
+            if f0[0] == "l" or (f0[0] == "call" and f0[1] == "llfree::bitfield::Bitfield::is_zero"):
+                zero_ok = zero_ok and c[2][1] == ("c", 0) and c[2][2] == ("c", 0)
+            elif c[2][0] == ENTRY:
+                zero_ok = zero_ok and c[2][2] == ("c", 0)
+    rep.check(zero_ok, rule, "stats_at|unused-fields-zero", "a per-frame query reports no huge frames / trees, a per-huge query no trees",
+              "a per-frame or per-huge-frame query reports a non-zero count in a field it does not compute", b.span)
     rep.check(base_ok, rule, "stats_at|base|result", "free_frames = (entry free && bit zero) as usize, else 0",
               "the base-frame result is not the guarded bit test", b.span)
     rep.check(huge_ok, rule, "stats_at|huge", "free_frames = entry.free(), free_huge = entry.free() / HUGE_FRAMES",
@@ -425,6 +459,24 @@ def r_stats_exact(rep, prog):
         (a, v), = ft[1][0].items()
         good = v == 1 and a[0] == "bin" and a[1] == "Eq" and ("c", TF) in (a[2], a[3])
     rep.check(good, rule, "stats|free_trees", "free_trees += (sum over the table == TREE_FRAMES)", "Lower::stats free_trees: %s" % (ft and ft[1],), b.span)
+    # ... where the compared value is the sum of the table's counters starting from 0
+    if good:
+        (a, v), = ft[1][0].items()
+        sumloc = [x for x in (a[2], a[3]) if x[0] == "l"]
+        ok_sum = False
+        sdetail = "the compared value is not a local accumulator"
+        if sumloc:
+            l_ = sumloc[0][1]
+            defs = []
+            for (dbi, dsi) in b.whole_defs(l_):
+                defs.append(T.canon(tm.call_term(dbi) if dsi == "term" else tm.rvalue(b.blocks[dbi]["stmts"][dsi]["rv"])))
+            init = [d for d in defs if d[0] == "c"]
+            adds = [d for d in defs if d[0] == "bin" and d[1] == "Add"]
+            ok_sum = (len(defs) == 2 and len(init) == 1 and init[0][1] == 0 and len(adds) == 1 and ("l", l_) in (adds[0][2], adds[0][3])
+                      and any(ENTRY(x) for x in (adds[0][2], adds[0][3])))
+            sdetail = "accumulator definitions: %s" % ([str(d)[:60] for d in defs],)
+        rep.check(ok_sum, rule, "stats|tree-sum", "the per-tree sum starts at 0 and adds entry.free()",
+                  "the value compared with TREE_FRAMES is not `0 + sum of entry.free()` over the table (%s)" % sdetail, b.span)
 
 
 def run(rep, programs):
